@@ -40,7 +40,8 @@ AttrShapes(tier) ==
 (* classes: signature-level markers (constructor parameters, multiple inheritance); each class has one typed attribute and one   *)
 (* method whose markers must stay on them *)
 ClassShapes(tier) ==
-  { Shape("class", TRUE, f) : f \in { {}, {"pmiss"}, {"tuple"}, {"variadic"}, {"multi"}, {"multi", "pmiss"}, {"set", "setmulti"}, {"unknownvalue"} } }
+  { Shape("class", TRUE, f) : f \in { {}, {"pmiss"}, {"tuple"}, {"variadic"}, {"multi"}, {"multi", "pmiss"}, {"set", "setmulti"}, {"unknownvalue"},
+                                       {"tuple", "@tpbound"}, {"set", "@tpbound"} } }      \* "@tpbound": the construct sits in the bound of a type parameter
   \cup { Shape("class", FALSE, {"pmiss", "multi"}) }
 
 Triples(S) == LET s == S IN { <<a, b, c>> : a \in s, b \in s, c \in s }
@@ -61,7 +62,7 @@ NextDecl ==
   /\ pc = "next" /\ ip < Len(sc.decls)
   /\ ip' = ip + 1
   /\ IF sc.decls[ip + 1].vis
-       THEN toRaise' = sc.decls[ip + 1].f /\ pc' = "render" /\ UNCHANGED todo
+       THEN toRaise' = sc.decls[ip + 1].f \cap Listed /\ pc' = "render" /\ UNCHANGED todo
        ELSE toRaise' = {} /\ pc' = "next" /\ todo' = Append(todo, {})      \* skipped: nothing is raised, nothing is written
   /\ UNCHANGED <<sc, pending>>
 Raise(k) ==
@@ -76,9 +77,9 @@ EndModule == pc = "next" /\ ip = Len(sc.decls) /\ pc' = "done" /\ UNCHANGED <<sc
 Next == BeginModule \/ NextDecl \/ (\E k \in Listed : Raise(k)) \/ Flush \/ EndModule
 Spec == Init /\ [][Next]_vars /\ WF_vars(Next)
 
-Inv_C20_Exact == \A d \in 1..Len(todo) : todo[d] = (IF sc.decls[d].vis THEN sc.decls[d].f ELSE {})
+Inv_C20_Exact == \A d \in 1..Len(todo) : todo[d] = (IF sc.decls[d].vis THEN sc.decls[d].f \cap Listed ELSE {})
 Inv_C20_NoLeak == pc \in {"next", "done"} => pending = {}
-Inv_C20_PendingOnlyOwn == pc = "render" => pending \subseteq sc.decls[ip].f
+Inv_C20_PendingOnlyOwn == pc = "render" => pending \subseteq (sc.decls[ip].f \cap Listed)
 Live_Done == <>(pc = "done")
 Emit == pc = "done" => PrintT(ToJson([cont |-> sc.cont, decls |-> [ d \in 1..3 |-> [c |-> sc.decls[d].c, vis |-> sc.decls[d].vis, f |-> sc.decls[d].f] ]]))
 
